@@ -25,11 +25,11 @@ fn sweep_cases() -> u64 {
 
 fn strata(t: Tier) -> Vec<Stratum> {
     vec![
-        ex("u8-u16-exhaustive", scale(t, sweep_cases(), sweep_cases(), 4)),
-        ex("wide-boundary", scale(t, 25, 25, 3)),
+        ex("u8-u16-exhaustive", scale(t, sweep_cases(), sweep_cases(), 2)),
+        ex("wide-boundary", scale(t, 25, 25, 2)),
         // every offset 2^k + d, k = 1..BITS-1, d in -9..=len+9, on buffers of length 0..=16
-        ex("power-of-two-offsets", scale(t, usize::BITS as u64 - 1, usize::BITS as u64 - 1, 6)),
-        st("wide-random", scale(t, 600_000, 6_000_000, 30)),
+        ex("power-of-two-offsets", scale(t, usize::BITS as u64 - 1, usize::BITS as u64 - 1, 4)),
+        st("wide-random", scale(t, 600_000, 6_000_000, 16)),
         // reads at offsets around and beyond 2^32 of a buffer that really is longer than 4 GiB (native 64-bit only)
         st("beyond-4GiB", scale(t, 64, 640, 0)),
     ]
@@ -206,6 +206,9 @@ fn check_all_specs(ctx: &mut Ctx, ty: Ty, off: usize, buf: &[u8], record: bool) 
     check_one(ctx, "AnyEndian::Little", AnyEndian::Little, false, ty, off, buf, record);
     check_one(ctx, "AnyEndian::Big", AnyEndian::Big, true, ty, off, buf, record);
     check_one(ctx, "NativeEndian", NativeEndian, cfg!(target_endian = "big"), ty, off, buf, record);
+    // specs defined outside the crate (they inherit the provided readers of the public trait)
+    check_one(ctx, "user-defined little-endian spec", super::util::UserLittle, false, ty, off, buf, record);
+    check_one(ctx, "user-defined big-endian spec", super::util::UserBig, true, ty, off, buf, record);
     if record {
         ctx.count_n("spec:NativeEndian", 1);
         ctx.count_n("spec:AnyEndian::Big", 1);
@@ -280,7 +283,9 @@ fn run(ctx: &mut Ctx, si: usize, case: u64) {
                 check_all_specs(ctx, Ty::U8, off, &buf, true);
             }
             if off < len && off + 1 < len {
-                for v in 0..=0xffffu32 {
+                // (under Miri every 251st value: the sweep is exhaustive natively)
+                let step = if ctx.tier == Tier::Miri { 1021 } else { 1 };
+                for v in (0..=0xffffu32).step_by(step) {
                     buf[off] = (v >> 8) as u8;
                     buf[off + 1] = v as u8;
                     check_all_specs(ctx, Ty::U16, off, &buf, v % 4099 == 1);
@@ -297,7 +302,7 @@ fn run(ctx: &mut Ctx, si: usize, case: u64) {
             // every boundary pattern, stored in both orders, at every offset of buffers 0..=24
             let pat = WIDE_PATTERNS[(case as usize) % WIDE_PATTERNS.len()];
             ctx.sample(|| format!("pattern {pat:#018x} stored LE and BE at every offset of buffers of length 0..=24"));
-            for len in 0..=24usize {
+            for len in 0..=(if ctx.tier == Tier::Miri { 4usize } else { 24 }) {
                 for big in [false, true] {
                     for at in 0..=len {
                         let mut buf = vec![0xA5u8; len];
@@ -320,7 +325,7 @@ fn run(ctx: &mut Ctx, si: usize, case: u64) {
             let k = 1 + (case as u32 % (usize::BITS - 1));
             let base = 1usize << k;
             ctx.sample(|| format!("offsets 2^{k} + d for d in -9..=len+9, buffers of length 0..=16, 6 types x 5 specs"));
-            for len in [0usize, 1, 2, 7, 8, 16] {
+            for len in if ctx.tier == Tier::Miri { vec![0usize, 8] } else { vec![0usize, 1, 2, 7, 8, 16] } {
                 let buf: Vec<u8> = (0..len).map(|i| (i * 29 + 3) as u8).collect();
                 for d in -9i64..=(len as i64 + 9) {
                     let off = if d < 0 { base.wrapping_sub((-d) as usize) } else { base.wrapping_add(d as usize) };
